@@ -77,6 +77,10 @@ def _job(args):
             r = ob.custom(param, tier)
         else:
             symx.KNOWN_REGIONS = [k for k in known if k.get("obligation") in (None, ob_name)]
+            if tier == "thorough" and os.environ.get("VERIF_XCHECK", "1") != "0":
+                xd = os.path.join(ROOT, ".xcheck", pid)
+                os.makedirs(xd, exist_ok=True)
+                symx.XCHECK.update(dir=xd, rate=0.02, max=3, n=0, rng=random.Random(hash((pid, ob_name, pidx)) & 0xFFFF), tag=f"{ob_name}_{pidx}")
             res = symx.explore(
                 lambda: ob.fn(**param),
                 timeout_ms=ob.timeout_ms,
@@ -284,6 +288,12 @@ def run_property(pid: str, tier: str, seed: int, jobs: int = 16, only: Optional[
         seen.add(key)
         print(f"KNOWN-FINDING: property={pid} {kf.get('what')}")
 
+    xcheck = None
+    if tier == "thorough" and os.environ.get("VERIF_XCHECK", "1") != "0":
+        xcheck = second_solver_stage(pid, seed)
+        for obn in xcheck.get("disagreements_by_obligation", {}):
+            if obn in per_ob:
+                per_ob[obn]["inconclusive"] += 1
     n_ob = len(per_ob)
     discharged = sum(
         1 for o in per_ob.values()
@@ -326,6 +336,7 @@ def run_property(pid: str, tier: str, seed: int, jobs: int = 16, only: Optional[
                 for r in sorted(results, key=lambda r: -r.get("job_wall_s", 0.0))[:5]
             ],
             "samples": samples or [{"note": "no path with a non-empty path condition"}],
+            "second_solver": xcheck,
             "nonreproducing_models": nonrepro,
             "known_findings_hit": [kf.get("what") for _, kf in known_hits],
             "exhaustive": all(o["exhausted"] for o in per_ob.values()) and harness_errors == 0,
@@ -349,6 +360,61 @@ def run_property(pid: str, tier: str, seed: int, jobs: int = 16, only: Optional[
     if harness_errors:
         return EXIT_HARNESS
     return EXIT_OK
+
+
+def second_solver_stage(pid: str, seed: int, limit: int = 48) -> dict:
+    """DESIGN 3.7/5: re-decide a seeded sample of the dumped atom queries with /usr/bin/z3 4.8.12
+    and the cvc5 1.0.3 binary.  A definite answer that contradicts ours makes the obligation
+    inconclusive (printed prominently); `(error` lines and timeouts are only counted."""
+    import glob
+    import shutil
+
+    xd = os.path.join(ROOT, ".xcheck", pid)
+    files = sorted(glob.glob(os.path.join(xd, "*.smt2")))
+    rng = random.Random(seed + 7)
+    rng.shuffle(files)
+    files = files[:limit]
+    out = dict(sampled=len(files), z3_4_8_agree=0, cvc5_agree=0, z3_4_8_other=0, cvc5_other=0, errors=0, disagreements=[], disagreements_by_obligation={})
+    solvers = []
+    if shutil.which("/usr/bin/z3"):
+        solvers.append(("z3_4_8", ["/usr/bin/z3", "-T:20"]))
+    if shutil.which("cvc5"):
+        solvers.append(("cvc5", ["cvc5", "--tlimit=20000", "--lang=smt2"]))
+
+    def run_one(args):
+        name, cmd, fn = args
+        try:
+            p = subprocess.run(cmd + [fn], capture_output=True, text=True, timeout=40)
+            txt = (p.stdout + p.stderr).strip()
+        except subprocess.TimeoutExpired:
+            txt = "timeout"
+        return name, fn, txt
+
+    tasks = [(n, c, f) for f in files for n, c in solvers]
+    from concurrent.futures import ThreadPoolExecutor
+
+    with ThreadPoolExecutor(max_workers=16) as ex:
+        results = list(ex.map(run_one, tasks))
+    for name, fn, txt in results:
+        with open(fn) as f:
+            expected = f.readline().split(":")[-1].strip()
+        first = txt.splitlines()[0].strip() if txt else ""
+        if "(error" in txt:
+            out["errors"] += 1
+            out[name + "_other"] += 1
+        elif first in ("sat", "unsat"):
+            if first == expected:
+                out[name + "_agree"] += 1
+            else:
+                obn = os.path.basename(fn).rsplit("_", 2)[0]
+                out["disagreements"].append({"file": fn, "solver": name, "ours": expected, "theirs": first})
+                out["disagreements_by_obligation"][obn] = out["disagreements_by_obligation"].get(obn, 0) + 1
+                print(f"SOLVER-DISAGREEMENT property={pid} obligation={obn} solver={name} ours={expected} theirs={first} query={fn} (obligation counted as inconclusive)")
+        else:
+            out[name + "_other"] += 1
+    shutil.rmtree(xd, ignore_errors=True)
+    print(f"SECOND-SOLVER property={pid}: {out['sampled']} sampled atom queries; z3 4.8.12 agrees on {out['z3_4_8_agree']} (no answer {out['z3_4_8_other']}), cvc5 1.0.3 agrees on {out['cvc5_agree']} (no answer {out['cvc5_other']}), disagreements {len(out['disagreements'])}")
+    return out
 
 
 def _z3v():
